@@ -2,6 +2,7 @@ package webpmeta
 
 import (
 	"fmt"
+	"io"
 
 	"github.com/mandykoh/prism/meta/binary"
 )
@@ -16,12 +17,12 @@ func (ch chunkHeader) String() string {
 }
 
 func readChunkHeader(r binary.Reader) (ch chunkHeader, err error) {
-	bytesRead, err := r.Read(ch.ChunkType[:])
+	_, err = io.ReadFull(r, ch.ChunkType[:])
+	if err == io.ErrUnexpectedEOF {
+		return ch, fmt.Errorf("unexpected EOF reading chunk type")
+	}
 	if err != nil {
 		return ch, err
-	}
-	if bytesRead != len(ch.ChunkType) {
-		return ch, fmt.Errorf("unexpected EOF reading chunk type")
 	}
 
 	ch.Length, err = binary.ReadU32Little(r)
